@@ -705,6 +705,20 @@ func layoutSeq(p *Program, fn *ssa.Function) (string, int64) {
 						parts = append(parts, fmt.Sprintf("bytes:%s@%d:%d", f, off, w))
 					}
 				case "PutUint64", "PutUint32":
+					// a loop over a small local array of the fields (`for i, v := range [...]int{N, R, P}`): one step per
+					// element, at the offset the loop index gives
+					if elems, c0, k0, ok := unrolledArrayWrites(p, fn, x); ok {
+						for k, e := range elems {
+							f := ""
+							for _, o := range (&Slicer{P: p}).Origins(e) {
+								if _, fl, _, ok := fieldOf(o); ok {
+									f = fl
+								}
+							}
+							parts = append(parts, fmt.Sprintf("%s:%s:%s@%d", strings.TrimPrefix(name, "Put"), receiverGlobal(x), f, k0+c0*int64(k)))
+						}
+						continue
+					}
 					// value arg derives from field
 					f := ""
 					sl := &Slicer{P: p}
@@ -750,6 +764,95 @@ func layoutSeq(p *Program, fn *ssa.Function) (string, int64) {
 		}
 	}
 	return strings.Join(parts, ";"), size
+}
+
+// unrolledArrayWrites: put is a PutUintNN(buf[lo:hi], uint(v)) inside a loop in which v is the element of a local array at
+// the loop's index and lo is linear in that index: the values stored into the array's elements (in index order), the
+// stride and the base offset.
+func unrolledArrayWrites(p *Program, fn *ssa.Function, put *ssa.Call) ([]ssa.Value, int64, int64, bool) {
+	if innermostLoopOf(loopsOf(fn), put) == nil || len(put.Call.Args) < 2 {
+		return nil, 0, 0, false
+	}
+	val := stripConv(put.Call.Args[len(put.Call.Args)-1])
+	var arrAlloc *ssa.Alloc
+	var index ssa.Value
+	switch x := val.(type) {
+	case *ssa.UnOp:
+		// *(&arr[i])
+		if ia, ok := x.X.(*ssa.IndexAddr); ok && x.Op == token.MUL {
+			arrAlloc, _ = ia.X.(*ssa.Alloc)
+			index = ia.Index
+		}
+	case *ssa.Index:
+		// (*arr)[i]: go/ssa ranges over a copy of the array value
+		if ld, ok := x.X.(*ssa.UnOp); ok && ld.Op == token.MUL {
+			arrAlloc, _ = ld.X.(*ssa.Alloc)
+			index = x.Index
+		}
+	}
+	if arrAlloc == nil || index == nil {
+		return nil, 0, 0, false
+	}
+	arr, ok := arrAlloc.Type().Underlying().(*types.Pointer).Elem().Underlying().(*types.Array)
+	if !ok || arr.Len() > 8 {
+		return nil, 0, 0, false
+	}
+	elems := make([]ssa.Value, arr.Len())
+	// the array the loop reads may be a copy (of a copy) of the literal: follow whole-array stores back
+	src := arrAlloc
+	for hops := 0; hops < 4 && src != nil; hops++ {
+		var next *ssa.Alloc
+		for _, u := range usesOf(src) {
+			switch x := u.(type) {
+			case *ssa.IndexAddr:
+				k, isK := constInt(x.Index)
+				if !isK || k < 0 || k >= arr.Len() {
+					continue
+				}
+				for _, uu := range usesOf(x) {
+					if st, ok := uu.(*ssa.Store); ok && st.Addr == ssa.Value(x) && elems[k] == nil {
+						elems[k] = st.Val
+					}
+				}
+			case *ssa.Store:
+				if x.Addr == ssa.Value(src) {
+					if ld, ok := x.Val.(*ssa.UnOp); ok && ld.Op == token.MUL {
+						if a2, ok := ld.X.(*ssa.Alloc); ok {
+							next = a2
+						}
+					}
+				}
+			}
+		}
+		src = next
+	}
+	for _, e := range elems {
+		if e == nil {
+			return nil, 0, 0, false
+		}
+	}
+	var buf *ssa.Slice
+	for _, a := range put.Call.Args {
+		if sl, ok := a.(*ssa.Slice); ok {
+			buf = sl
+		}
+	}
+	if buf == nil || buf.Low == nil {
+		return nil, 0, 0, false
+	}
+	low := p.linearize(buf.Low, 0)
+	idx := p.linearize(index, 0)
+	if len(low.Coef) != 1 || len(idx.Coef) != 1 {
+		return nil, 0, 0, false
+	}
+	for a, c0 := range low.Coef {
+		if idx.Coef[a] != 1 {
+			return nil, 0, 0, false
+		}
+		// go/ssa rotates range loops: the index is "counter + 1"; element k is read when counter = k - idx.Konst
+		return elems, c0, low.Konst - c0*idx.Konst, true
+	}
+	return nil, 0, 0, false
 }
 
 func receiverGlobal(call *ssa.Call) string {
@@ -955,6 +1058,34 @@ func checkSaltedHash(c *Ctx, rule string) {
 								if al, ok := a.(*ssa.Alloc); ok {
 									for _, s3 := range storesTo(al) {
 										if s3.Val == passVar {
+											passOK = true
+										}
+									}
+								}
+							}
+						}
+					}
+				}
+				// the derivation in a private part that is handed the passphrase variable (deriveKeys(&passphrase)): the part
+				// hands that very parameter to the derivation
+				if passVar != nil && !passOK {
+					for _, ci := range callsOf(searchFn) {
+						pc, isCall := ci.(*ssa.Call)
+						if !isCall {
+							continue
+						}
+						h := pc.Call.StaticCallee()
+						if h == nil || len(h.Blocks) == 0 || h.Object() == nil || h.Object().Exported() || fnPkgPath(h) != fnPkgPath(searchFn) || len(h.Params) != len(pc.Call.Args) {
+							continue
+						}
+						for ai, a := range pc.Call.Args {
+							if a != passVar {
+								continue
+							}
+							for _, name := range []string{"DeriveKey", "newSecretKey", "NewSecretKey"} {
+								for _, dk := range callsNamed(h, name) {
+									for _, da := range dk.Call.Args {
+										if da == ssa.Value(h.Params[ai]) {
 											passOK = true
 										}
 									}
